@@ -1,3 +1,185 @@
-import Cppcms.C16.Model
+import Cppcms.C16.Lemmas
+/-!
+# C16 — property theorems
+
+"For every message, key and way of feeding the message in pieces, the MD5 and SHA-1 digests and the
+HMACs built on them equal the values defined by the standards, a digest or HMAC object is ready for
+a new message after each read-out; AES-CBC decryption undoes encryption on whole blocks."
+
+`md5Hash` / `sha1Hash` are `Spec.mdHash` (pad, split, fold — written from the standards) over the
+compression functions assembled from the translated source.
+SHA-2 and the AES block function are OpenSSL's: they enter as the abstract lawful digest `H`
+(`hmac_eq_rfc2104`) and the abstract block permutation `E`/`D` (`cbc_*`).
+-/
 namespace Cppcms.C16.Props
+open Cppcms Cppcms.C16
+
+/-! ## MD5 -/
+
+/-- the bundled MD5 object is a lawful streaming implementation of `md5Hash` for appends < 2^31 bytes,
+whatever the 64-byte buffer contained when it was constructed -/
+def md5Laws (buf0 : Bytes) (h : buf0.length = 64) : HashLaws (md5Obj buf0) md5Hash (· < 2 ^ 31) where
+  rep := Md5Inv
+  fresh := md5Init_inv buf0 h
+  append := fun s m d hi hd => md5Append_inv s m d hi hd
+  readout := fun s m hi => md5Readout_spec s m hi
+  digest_len := fun m => by simp [md5Hash, Spec.mdHash, md5Out]; rfl
+  digest_le_block := by show Gen.md5DigestSize ≤ Gen.md5BlockSize; decide
+  block_ok := by show Gen.md5BlockSize < 2 ^ 31; decide
+  ok_mono := fun _ _ h1 h2 => Nat.lt_of_le_of_lt h1 h2
+
+/-- every way of feeding a message to a fresh (or re-initialised) MD5 object gives the MD5 of the
+concatenation, independent of stale buffer content -/
+theorem md5_stream_eq_spec (buf0 : Bytes) (h : buf0.length = 64) (chunks : List Bytes)
+    (hc : ∀ c ∈ chunks, c.length < 2 ^ 31) :
+    (md5Readout (chunks.foldl md5Append (md5Init buf0))).1 = md5Hash chunks.flatten := by
+  have := (md5Laws buf0 h).foldl chunks _ [] (md5Laws buf0 h).fresh hc
+  exact ((md5Laws buf0 h).readout _ _ this).1
+
+/-- reuse after read-out: one object, any number of messages, each fed in any pieces -/
+theorem md5_session_eq_spec (buf0 : Bytes) (h : buf0.length = 64) (msgs : List (List Bytes))
+    (hc : ∀ cs ∈ msgs, ∀ c ∈ cs, c.length < 2 ^ 31) :
+    (md5Obj buf0).session (md5Obj buf0).fresh msgs = msgs.map fun cs => md5Hash cs.flatten :=
+  (md5Laws buf0 h).session msgs _ (md5Laws buf0 h).fresh hc
+
+/-- documented excluded point of the bound above: `md5_digets::append(ptr, size)` passes `size` as an
+`int`; a single append of exactly 2^31 bytes is dropped without any effect -/
+theorem md5_append_int_truncation (s : Md5State) (d : Bytes) (h : d.length = 2 ^ 31) : md5Append s d = s := by
+  simp [md5Append, h]
+
+example : ∃ chunks : List Bytes, (∀ c ∈ chunks, c.length < 2 ^ 31) ∧ chunks.length = 3 :=
+  ⟨[[1, 2], [], [3]], by decide, rfl⟩
+
+/-! ## SHA-1 -/
+
+theorem and255 (x : Nat) : x &&& 255 = x % 256 := Nat.and_two_pow_sub_one_eq_mod x 8
+
+/-- D6 (DESIGN.md §6, fixed in /repo by "fix: sha1 get_digest appends the full 64-bit message bit
+count"): the eight length bytes `get_digest` appends are the big-endian 64-bit bit count.  As found,
+the first four were constant zero and this was provable only for `bc < 2^32`, i.e. messages shorter
+than 2^29 bytes; the check then reported the 2^29-byte witness kept in gen/corpus/C16. -/
+theorem sha1_len_bytes_eq_be64 (bc : Nat) :
+    nats (Gen.sha1LenBytes bc) = Spec.be64 bc := by
+  have hr : List.range 8 = [0, 1, 2, 3, 4, 5, 6, 7] := by decide
+  simp only [Gen.sha1LenBytes, nats, Spec.be64, Spec.le64, hr, List.map_cons, List.map_nil, List.reverse_cons,
+    List.reverse_nil, List.nil_append, List.cons_append, and255, Nat.shiftRight_eq_div_pow]
+  simp only [List.cons.injEq, and_true]
+  refine ⟨?_, ?_, ?_, ?_, ?_, ?_, ?_, ?_⟩ <;> congr 1 <;> simp <;> omega
+
+/-- the witness of D6 at the level of the length encoding: for the bit count 2^32 (a message of 2^29
+bytes) the fifth-from-last byte must be 1 — the unfixed code emitted 0 there -/
+example : nats (Gen.sha1LenBytes (Gen.sha1BitCount (2 ^ 29))) = [0, 0, 0, 1, 0, 0, 0, 0] := by decide
+
+theorem sha1_hlen (m : Bytes) :
+    nats (Gen.sha1LenBytes (Gen.sha1BitCount (m.length % 2 ^ 64))) = Spec.be64 (8 * m.length % 2 ^ 64) := by
+  have e2 : Gen.sha1BitCount (m.length % 2 ^ 64) = 8 * m.length % 2 ^ 64 := by
+    simp only [Gen.sha1BitCount]; omega
+  rw [e2]
+  exact sha1_len_bytes_eq_be64 _
+
+/-- the bundled SHA-1 object is a lawful streaming implementation of `sha1Hash` -/
+def sha1Laws (block0 : Bytes) (h : block0.length = 64) : HashLaws (sha1Obj block0) sha1Hash (fun _ => True) where
+  rep := Sha1Inv
+  fresh := sha1Reset_inv block0 h
+  append := fun s m d hi _ => sha1Append_inv d s m hi
+  readout := fun s m hi => sha1Readout_spec s m hi (sha1_hlen m)
+  digest_len := fun m => by
+    have h5 := absorb_preserves (fun st : List Nat => st.length = 5) sha1ProcessBlock
+      (fun st blk hs => by simp [sha1ProcessBlock, hs]) Gen.sha1Init (Spec.pad Spec.be64 m) rfl
+    simp only [sha1Hash, Spec.mdHash, sha1Out, nats, List.length_map]
+    generalize Spec.absorb sha1ProcessBlock Gen.sha1Init (Spec.pad Spec.be64 m) = st at h5
+    match st, h5 with
+    | [a, b, c, d, e], _ => rfl
+  digest_le_block := by show Gen.sha1DigestSize ≤ Gen.sha1BlockSize; decide
+  block_ok := trivial
+  ok_mono := fun _ _ _ _ => trivial
+
+/-- every way of feeding a message to a fresh (or re-initialised) SHA-1 object gives the SHA-1 of the
+concatenation (bit length taken modulo 2^64, as the spec does beyond the standard's domain),
+independent of stale block content -/
+theorem sha1_stream_eq_spec (block0 : Bytes) (h : block0.length = 64) (chunks : List Bytes) :
+    (sha1Readout (chunks.foldl sha1Append (sha1Reset block0))).1 = sha1Hash chunks.flatten := by
+  have hi := sha1_foldl_inv chunks _ [] (sha1Reset_inv block0 h)
+  rw [List.nil_append] at hi
+  exact (sha1Readout_spec _ _ hi (sha1_hlen _)).1
+
+theorem sha1_session_eq_spec (block0 : Bytes) (h : block0.length = 64) (msgs : List (List Bytes)) :
+    (sha1Obj block0).session (sha1Obj block0).fresh msgs = msgs.map fun cs => sha1Hash cs.flatten :=
+  (sha1Laws block0 h).session msgs _ (sha1Laws block0 h).fresh (fun _ _ _ _ => trivial)
+
+/-! ## HMAC -/
+
+/-- RFC 2104 for every lawful streaming digest: any key (hashed first iff longer than the block), any
+chunking, any number of messages on one object -/
+theorem hmac_eq_rfc2104 {σ : Type} (H : HashObj σ) (hash : Bytes → Bytes) (ok : Nat → Prop) (L : HashLaws H hash ok)
+    (key : Bytes) (hk : ok key.length) (msgs : List (List Bytes)) (hc : ∀ cs ∈ msgs, ∀ c ∈ cs, ok c.length) :
+    (hmacObj H key).session (hmacNew H key) msgs = msgs.map fun cs => Spec.hmac hash H.blockSize key cs.flatten :=
+  (hmacLaws L key hk).session msgs _ (hmacLaws L key hk).fresh hc
+
+theorem hmac_md5_eq_rfc2104 (buf0 : Bytes) (h : buf0.length = 64) (key : Bytes) (hk : key.length < 2 ^ 31)
+    (msgs : List (List Bytes)) (hc : ∀ cs ∈ msgs, ∀ c ∈ cs, c.length < 2 ^ 31) :
+    (hmacObj (md5Obj buf0) key).session (hmacNew (md5Obj buf0) key) msgs =
+      msgs.map fun cs => Spec.hmac md5Hash 64 key cs.flatten :=
+  hmac_eq_rfc2104 _ _ _ (md5Laws buf0 h) key hk msgs hc
+
+theorem hmac_sha1_eq_rfc2104 (block0 : Bytes) (h : block0.length = 64) (key : Bytes) (msgs : List (List Bytes)) :
+    (hmacObj (sha1Obj block0) key).session (hmacNew (sha1Obj block0) key) msgs =
+      msgs.map fun cs => Spec.hmac sha1Hash 64 key cs.flatten :=
+  hmac_eq_rfc2104 _ _ _ (sha1Laws block0 h) key trivial msgs (fun _ _ _ _ => trivial)
+
+/-! ## CBC -/
+
+theorem cbc_calls_chain {β : Type} (xor : β → β → β) (E D : β → β) (iv : β) (pss css : List (List β)) :
+    cbcEncryptCalls xor E (cbcSetIv iv) pss = Spec.cbcEncrypt xor E iv pss.flatten ∧
+    cbcDecryptCalls xor D (cbcSetIv iv) css = Spec.cbcDecrypt xor D iv css.flatten :=
+  ⟨cbcEncryptCalls_eq xor E pss _, cbcDecryptCalls_eq xor D css _⟩
+
+/-- decryption undoes encryption however both sides cut the stream into calls -/
+theorem cbc_dec_enc {β : Type} (W : β → Prop) (xor : β → β → β) (E D : β → β) (L : CbcLaws W xor E D)
+    (iv : β) (hiv : W iv) (pss css : List (List β)) (hps : ∀ p ∈ pss.flatten, W p)
+    (hsame : css.flatten = cbcEncryptCalls xor E (cbcSetIv iv) pss) :
+    cbcDecryptCalls xor D (cbcSetIv iv) css = pss.flatten := by
+  rw [cbcDecryptCalls_eq, hsame, cbcEncryptCalls_eq]
+  exact cbcDecrypt_cbcEncrypt L _ iv hiv hps
+
+/-- what `aes_cipher` relies on: a receiver that does not know the IV loses only the first block -/
+theorem cbc_first_block_trick {β : Type} (W : β → Prop) (xor : β → β → β) (E D : β → β) (L : CbcLaws W xor E D)
+    (iv iv' z : β) (bs : List β) (hiv : W iv) (hz : W z) (hbs : ∀ p ∈ bs, W p) :
+    (Spec.cbcDecrypt xor D iv' (Spec.cbcEncrypt xor E iv (z :: bs))).tail = bs := by
+  simp only [Spec.cbcEncrypt, Spec.cbcDecrypt, List.tail_cons]
+  exact cbcDecrypt_cbcEncrypt L bs _ (L.enc_wf _ (L.xor_wf _ _ hz hiv)) hbs
+
+/-- non-vacuity: 16-byte strings with bytewise xor and any length-preserving permutation pair -/
+example : CbcLaws (fun b : Bytes => b.length = 2) xorBytes (fun b => b.reverse) (fun b => b.reverse) where
+  xor_cancel := by
+    intro a b ha hb
+    match a, b, ha, hb with
+    | [a0, a1], [b0, b1], _, _ => simp [xorBytes, UInt8.xor_assoc]
+  xor_wf := by intro a b ha hb; simp [xorBytes, ha, hb]
+  enc_wf := by intro x hx; simpa using hx
+  dec_enc := by intro x _; simp
+
+/-! ## hexadecimal keys -/
+
+theorem key_hex_strict (s : Bytes) :
+    (∀ k, setHex s = .ok k ↔ (s.length % 2 = 0 ∧ Spec.fromHex s = some k)) ∧
+    (setHex s = .oddLength ↔ s.length % 2 = 1) ∧
+    (setHex s = .invalidChar ↔ (s.length % 2 = 0 ∧ Spec.fromHex s = none)) := by
+  have hodd : Gen.hexOddLen s.length = decide (s.length % 2 ≠ 0) := by
+    simp [Gen.hexOddLen]
+  unfold setHex
+  by_cases h0 : s.length = 0
+  · have : s = [] := List.eq_nil_of_length_eq_zero h0
+    subst this
+    simp [Spec.fromHex, eq_comm]
+  · rw [if_neg h0, hodd]
+    by_cases hpar : s.length % 2 = 0
+    · have hp := hexPairs_spec s hpar
+      simp only [hpar, ne_eq, not_true_eq_false, decide_false, Bool.false_eq_true, if_false]
+      cases hall : (s.all fun c => Gen.hexCharOk c.toNat)
+      · simp [hp.2 hall]
+      · simp [hp.1 hall, eq_comm]
+    · have : s.length % 2 = 1 := by omega
+      simp [this]
+
 end Cppcms.C16.Props
